@@ -544,7 +544,9 @@ class C10(Prop):
     ]
     assumptions = ["recorded import graph of the loaded contexts is acyclic (an import cycle does not terminate in pyscript)",
                    "context names are unique in GlobalContextMgr.contexts (a dict)"]
-    partial_note = ("the watchdog thread is not exercised (reload is invoked as the service); import levels >= 2, nested "
+    partial_note = ("C10_post_state_default_partial: the equality contexts = spec_loaded after a DEFAULT reload assumes that the contexts surviving "
+                    "the delete phase are consistent with the new tree (proved outright for '*' and start-up); "
+                    "the watchdog thread is not exercised (reload is invoked as the service); import levels >= 2, nested "
                     "sub-packages, apps importing apps and `import pkg.sub` from outside the package are not generated")
 
     def translate(self, ctx):
@@ -557,15 +559,17 @@ MANIFEST_ENTRY = {
     "technique": "Rocq proof (memoised import closure = reachability incl. fuel bound; step-by-step plan = declarative discard/force sets; "
                  "untouched/post-state invariants lifted over all reload histories; discovery vs documented rules) "
                  "+ in-Coq correspondence with the real pyscript.reload service on real file trees",
-    "level_text": ("Theorems C10_import_closure(+_terminates) / C10_plan_exact / C10_untouched / C10_post_state_partial (+ C10_star_discards_all, "
-                   "C10_reexecuted, C10_autoload_complete) / C10_history / C10_discover_names / C10_discover_autoload about a Gallina model of "
+    "level_text": ("Theorems C10_import_closure(+_terminates) / C10_plan_exact / C10_untouched / C10_post_state_star / _startup (table = spec_loaded, the by-source import closure, each at current source) / "
+                   "C10_post_state_default_partial / C10_post_state_current (+ C10_star_discards_all, C10_reexecuted, C10_reexecution_exact, "
+                   "C10_autoload_complete) / C10_history_post / C10_history / C10_discover_names / C10_discover_autoload about a Gallina model of "
                    "load_scripts, module_import and start_global_contexts whose load_paths, context roots, change-detection fields and import "
                    "candidate table are regenerated from the source on every run and whose behaviour (load events in order and the complete "
                    "context table after every reload) is compared inside Coq with the real service on generated trees and histories. "
                    "Four deviations of the unchanged code (D100-D103) are modelled behind switches, refuted by vm_compute on their witnesses and "
                    "reported as KNOWN-FINDING while they persist."),
-    "level_note": ("Trusted: Coq kernel+vm_compute; glob/sorted model; translator and drivers in /verif/harness. C10_post_state is partial "
-                   "(see Properties/C10.v): the by-source import closure of the Spec is checked by the correspondence, not proved. "
-                   "Not exercised: watchdog thread."),
+    "level_note": ("Trusted: Coq kernel+vm_compute; glob/sorted model; translator and drivers in /verif/harness. The exact post-state "
+                   "(table = spec_loaded, each at current source) is proved for '*' and start-up; for default reloads under the hypothesis that "
+                   "the survivors are consistent with the new tree (C10_post_state_default_partial; missing: cross-tree stability of import "
+                   "resolution for unchanged files), which the correspondence checks on every history. Not exercised: watchdog thread."),
     "design_ref": "DESIGN.md §4 C10",
 }
